@@ -3,10 +3,10 @@
 Grid: bit widths (quick: 8,16,32,64; thorough: 1..64); all values symbolic.
 """
 from pyvc.engine import Contract, Loop
-from pyvc.spec import (and_, or_, not_, implies, ite, chain_spec, bsum, b2i, bit, tier)
+from pyvc.spec import (and_, or_, not_, implies, ite, chain_spec, bsum, b2i, bit, tier, pick)
 
 M = "ppci.utils.bitfun"
-BITS = [8, 16, 32, 64] if tier() == "quick" else list(range(1, 65))
+BITS = [1, 5, 8, 16, 24, 32, 64] if tier() == "quick" else list(range(1, 65))
 BITS1 = BITS  # widths >= 1
 
 
@@ -47,18 +47,37 @@ def bitlen(u, w):
     return bsum(b2i(u >= (1 << i)) for i in range(w))
 
 
-def clz_spec(v, w):
-    return w - bitlen(umod(v, w), w)
-
-
-def ctz_spec(v, w):
+def clz_ok(v, w, c):
+    """c is the number of leading zeros of the w-bit value u = v mod 2^w:
+    c == w and u == 0,  or  c < w and 2^(w-1-c) <= u < 2^(w-c)."""
     u = umod(v, w)
-    return bsum(b2i(u % (1 << (i + 1)) == 0) for i in range(w))
+    c = pick(c, w + 1)
+    if not isinstance(c, int):
+        return False
+    if c == w:
+        return u == 0
+    if c < 0 or c > w:
+        return False
+    return and_(u >= (1 << (w - 1 - c)), u < (1 << (w - c)))
+
+
+def ctz_ok(v, w, c):
+    """c trailing zeros: c == w and u == 0, or c < w, 2^c | u and bit c of u set."""
+    u = umod(v, w)
+    c = pick(c, w + 1)
+    if not isinstance(c, int):
+        return False
+    if c == w:
+        return u == 0
+    if c < 0 or c > w:
+        return False
+    return and_(u % (1 << c) == 0, bit(u, c) == 1)
 
 
 def popc_upto(v, n, w):
-    """number of one bits among bits 0..n-1 of v (n possibly symbolic, n <= w)"""
-    return bsum(b2i(and_(n > i, bit(v, i) == 1)) for i in range(w))
+    """number of one bits among bits 0..n-1 of v"""
+    n = pick(n, w + 1)
+    return bsum(bit(v, i) for i in range(n))
 
 
 def popcnt_spec(v, w):
@@ -67,6 +86,17 @@ def popcnt_spec(v, w):
 
 def imm32_ok(v):
     return or_(*[rol(v, 2 * i, 32) < 256 for i in range(16)])
+
+
+def _imm32_post(e):
+    out = [("0 <= result < 2^12", and_(e.result >= 0, e.result < (1 << 12)))]
+    rot = pick(e.result // 256, 16)
+    imm = e.result % 256
+    if not isinstance(rot, int) or not (0 <= rot < 16):
+        return out + [("rotation in range(16)", False)]
+    out.append(("ror32(imm8, 2*rot) == v", ror(imm, (2 * rot) % 32, 32) == e.v))
+    out.append(("rotation is the smallest", and_(*([rol(e.v, 2 * j, 32) >= 256 for j in range(rot)] or [True]))))
+    return out
 
 
 CONTRACTS = []
@@ -129,12 +159,28 @@ CONTRACTS.append(Contract(
 CONTRACTS.append(Contract(
     M + ":clz", "C39", params={"v": "int", "bits": "int"},
     grid=[{"bits": w} for w in BITS],
-    ensures=lambda e: [("result == clz(v mod 2^bits)", e.result == clz_spec(e.v, e.bits))],
+    ensures=lambda e: [("result == clz(v mod 2^bits)", clz_ok(e.v, e.bits, e.result))],
+    loops={0: Loop(
+        havoc={"count": lambda old: ("small", 0, old.bits + 1), "v": "int"},
+        invariant=lambda e: [
+            ("v == v0 * 2^count", e.v == e.old.v * (1 << e.count)),
+            ("top count bits of v0 mod 2^bits are zero", umod(e.old.v, e.old.bits) < (1 << (e.old.bits - e.count))),
+        ],
+        decreases=lambda e: e.old.bits - e.count,
+    )},
 ))
 CONTRACTS.append(Contract(
     M + ":ctz", "C39", params={"v": "int", "bits": "int"},
     grid=[{"bits": w} for w in BITS],
-    ensures=lambda e: [("result == ctz(v mod 2^bits)", e.result == ctz_spec(e.v, e.bits))],
+    ensures=lambda e: [("result == ctz(v mod 2^bits)", ctz_ok(e.v, e.bits, e.result))],
+    loops={0: Loop(
+        havoc={"count": lambda old: ("small", 0, old.bits + 1), "v": "int"},
+        invariant=lambda e: [
+            ("v == v0 // 2^count", e.v == e.old.v // (1 << e.count)),
+            ("low count bits of v0 are zero", e.old.v % (1 << e.count) == 0),
+        ],
+        decreases=lambda e: e.old.bits - e.count,
+    )},
 ))
 
 # popcnt : loop invariant over the bit index (a plain unrolling forks 2^bits paths)
@@ -156,12 +202,7 @@ CONTRACTS.append(Contract(
 CONTRACTS.append(Contract(
     M + ":encode_imm32", "C39", params={"v": ("range", 0, 1 << 32)},
     raises=[(ValueError, lambda e: not_(imm32_ok(e.v)))],
-    ensures=lambda e: [
-        ("0 <= result < 2^12", and_(e.result >= 0, e.result < (1 << 12))),
-        ("ror32(imm8, 2*rot) == v", chain_spec(e.result // 256, 16, lambda r: ror(e.result % 256, (2 * r) % 32, 32)) == e.v),
-        ("rotation is the smallest", chain_spec(e.result // 256, 16,
-                                                 lambda r: b2i(and_(*([rol(e.v, 2 * j, 32) >= 256 for j in range(r)] or [True])))) == 1),
-    ],
+    ensures=lambda e: _imm32_post(e),
 ))
 
 NOT_COVERED = ["widths above 64 bits (grid is 1..64 in the thorough tier, 8/16/32/64 in the quick tier)"]
